@@ -32,7 +32,7 @@ for p in props:
 
 m = {
     "version": 1,
-    "setup_cmd": "cd /verif/harness && CARGO_NET_OFFLINE=true cargo build --release --offline -p vcheck " + " ".join("--bin " + k.lower() for k in sorted(CHECKS)) + " 2>&1 | tail -3",
+    "setup_cmd": "cd /verif/harness && CARGO_NET_OFFLINE=true cargo build --release --offline -p vcheck " + " ".join("--bin " + k.lower() for k in sorted(CHECKS)) + " 2>&1 | tail -3; cd /verif/harness-stronghold && CARGO_NET_OFFLINE=true cargo build --release --offline 2>&1 | tail -1",
     "hooks": {
         "guard": "cargo feature `verif-hooks` of identity_storage (off by default)",
         "enable": "the harness crate vx depends on identity_storage by path with features=[\"verif-hooks\"]; cargo feature unification turns it on for every check binary",
